@@ -69,6 +69,95 @@ def free_real_vars(terms):
         if z3.is_expr(t): visit(t)
     return list(seen.values())
 
+# ---------------------------------------------------------------- rational normal form (query simplification done by z3's rewriter)
+
+_ONE = z3.RealVal(1)
+
+def _factors(t, out):
+    '''split a product term into its literal factors: {term id: [term, multiplicity]}; numerals are dropped (non-zero numerals do not matter for a divisor)'''
+    if z3.is_app(t) and t.decl().kind() == z3.Z3_OP_MUL:
+        for c in t.children(): _factors(c, out)
+    elif z3.is_rational_value(t) and t.as_fraction() != 0:
+        pass
+    else:
+        e = out.setdefault(t.get_id(), [t, 0]); e[1] += 1
+    return out
+
+def _prod(num, facs):
+    '''num * prod(term**mult)'''
+    terms = [num] + [t for t, m in facs.values() for _ in range(m)]
+    return z3.Product(*terms) if len(terms) > 1 else num
+
+def _lcm(dens):
+    l = {}
+    for d in dens:
+        for k, (t, m) in d.items():
+            if k not in l or l[k][1] < m: l[k] = [t, m]
+    return l
+
+def _missing(l, d):
+    return {k: [t, m - d.get(k, (None, 0))[1]] for k, (t, m) in l.items() if m - d.get(k, (None, 0))[1] > 0}
+
+def ratnorm(t, cache):
+    '''z3 real term -> (num, den): t == num / prod(term**mult for den) wherever every divisor term is non-zero.  den is a multiset of divisor
+    factors {term id: [term, multiplicity]} (kept factored so that common denominators stay of minimal degree).  Only + - * / and unary minus are
+    interpreted; every other sub-term (variables, if-then-else, uninterpreted functions, to_real) is an atom.'''
+    k = t.get_id()
+    r = cache.get(k)
+    if r is not None: return r
+    d = t.decl().kind() if z3.is_app(t) else None
+    if d in (z3.Z3_OP_ADD, z3.Z3_OP_SUB):
+        parts = [ratnorm(c, cache) for c in t.children()]
+        den = _lcm([dd for _, dd in parts])
+        nums = [_prod(n, _missing(den, dd)) for n, dd in parts]
+        if d == z3.Z3_OP_ADD: num = z3.Sum(*nums) if len(nums) > 1 else nums[0]
+        elif len(nums) == 1: num = -nums[0]
+        else: num = nums[0] - (z3.Sum(*nums[1:]) if len(nums) > 2 else nums[1])
+        r = (num, den)
+    elif d == z3.Z3_OP_UMINUS:
+        n, dd = ratnorm(t.arg(0), cache); r = (-n, dd)
+    elif d == z3.Z3_OP_MUL:
+        parts = [ratnorm(c, cache) for c in t.children()]
+        num = z3.Product(*[n for n, _ in parts]) if len(parts) > 1 else parts[0][0]
+        den = {}
+        for _, dd in parts:
+            for kk, (tt, m) in dd.items():
+                e = den.setdefault(kk, [tt, 0]); e[1] += m
+        r = (num, den)
+    elif d == z3.Z3_OP_DIV:
+        (n1, d1), (n2, d2) = ratnorm(t.arg(0), cache), ratnorm(t.arg(1), cache)
+        # (n1/d1) / (n2/d2) = n1*d2 / (d1*n2)
+        num = _prod(n1, d2)
+        den = {kk: [tt, m] for kk, (tt, m) in d1.items()}
+        for kk, (tt, m) in _factors(n2, {}).items():
+            e = den.setdefault(kk, [tt, 0]); e[1] += m
+        if z3.is_rational_value(n2):
+            if n2.as_fraction() == 0: den[n2.get_id()] = [n2, 1]
+            else: num = num / n2
+        else:
+            # numeric coefficient inside the divisor product
+            coef = [c for c in (n2.children() if z3.is_app(n2) and n2.decl().kind() == z3.Z3_OP_MUL else []) if z3.is_rational_value(c)]
+            for c in coef: num = num / c
+        # d2's factors are divisors of the original term as well (they must be non-zero for t to be defined): keep them with multiplicity 0
+        for kk, (tt, m) in d2.items(): den.setdefault(kk, [tt, 0])
+        r = (num, den)
+    else:
+        r = (t, {})
+    cache[k] = r
+    return r
+
+def _is_zero(t):
+    return z3.is_rational_value(t) and t.as_fraction() == 0
+
+def cross_difference(ta, tb, cache):
+    '''(num_a * (lcm/den_a) - num_b * (lcm/den_b) in sum-of-monomials form, {id: divisor term})'''
+    na, da = ratnorm(ta, cache); nb, db = ratnorm(tb, cache)
+    l = _lcm([da, db])
+    diff = z3.simplify(_prod(na, _missing(l, da)) - _prod(nb, _missing(l, db)), som=True, som_blowup=10**7, flat=True, sort_sums=True)
+    return diff, {k: t for k, (t, m) in l.items()}
+
+RAT_STATS = dict(normalised_to_zero=0, polynomial_form_decided=0)
+
 class Verdict:
     __slots__ = ('exact_unsat', 'margin_unsat', 'sat', 'unknown', 'trivial', 'models')
     def __init__(self):
@@ -91,6 +180,7 @@ def equiv(ref, other, *, pc=(), defined=(), side=(), timeout_ms=30000, margin=No
     s = z3.Solver(); s.set('timeout', timeout_ms)
     s.add(*pc); s.add(*side); s.add(*defined); s.add(*extra); s.add(*_sym.UF_AXIOMS())
     boxed = None
+    ratcache, divisor_ok, lemmas = {}, {}, None
     import time as _time
     t_start = _time.time()
     for idx, (a, b) in enumerate(zip(ra, rb)):
@@ -106,13 +196,48 @@ def equiv(ref, other, *, pc=(), defined=(), side=(), timeout_ms=30000, margin=No
         else:
             ts = z3.BoolVal(True)
         r = z3.sat
+        # stage 0: rational normal form.  The two elements are written as quotients of polynomials over atoms; z3's rewriter expands the cross-multiplied
+        # difference into sum-of-monomials form.  If that is the literal 0 and every divisor is shown non-zero under the assumptions (one query per
+        # distinct divisor, cached), the elements are equal for all values: the residual query `0 != 0` is unsat.
+        poly = None
+        if (exact_first or margin is None) and t is not True:
+            try:
+                poly = _poly_form(a, b, ratcache)
+            except Exception:
+                poly = None
+            if poly is not None and all(_is_zero(d) for d in poly[0]):
+                okdiv = True
+                for fid, f in poly[1].items():
+                    if fid not in divisor_ok:
+                        s.push(); s.add(f == 0); rr = timed_check(s); s.pop()
+                        divisor_ok[fid] = (rr == z3.unsat)
+                    if not divisor_ok[fid]: okdiv = False; break
+                if okdiv:
+                    v.exact_unsat += 1; RAT_STATS['normalised_to_zero'] += 1; continue
+        if poly is not None and (exact_first or margin is None):
+            # stage 1: the same question without divisions - some cross-multiplied difference is non-zero while all divisors are non-zero -
+            # together with sum-of-monomials copies of the defining equations of fresh variables (roots, norms), so that the linear-arithmetic
+            # core can close the goal by treating monomials as variables.  A model of this query is a model of the original one.
+            if lemmas is None: lemmas = side_lemmas(list(side) + list(pc), ratcache)
+            s.push(); s.set('timeout', min(timeout_ms, 8000))
+            s.add(z3.Or(*[d != 0 for d in poly[0]])); s.add(*[f != 0 for f in poly[1].values()]); s.add(*lemmas)
+            r1 = timed_check(s)
+            m1 = s.model() if r1 == z3.sat else None
+            s.pop(); s.set('timeout', timeout_ms)
+            if r1 == z3.unsat:
+                v.exact_unsat += 1; RAT_STATS['polynomial_form_decided'] += 1; continue
+        else:
+            r1 = None
         if exact_first or margin is None:
-            s.push(); s.add(ts)
-            r = timed_check(s)
-            m = s.model() if r == z3.sat else None
-            s.pop()
-            if r == z3.unsat:
-                v.exact_unsat += 1; continue
+            if r1 == z3.sat:
+                r, m = r1, m1
+            else:
+                s.push(); s.add(ts)
+                r = timed_check(s)
+                m = s.model() if r == z3.sat else None
+                s.pop()
+                if r == z3.unsat:
+                    v.exact_unsat += 1; continue
         if margin is not None and r != z3.unsat:
             mt = margin_term(a, b, margin)
             if mt is False:
@@ -134,6 +259,39 @@ def equiv(ref, other, *, pc=(), defined=(), side=(), timeout_ms=30000, margin=No
         else:
             v.unknown += 1
     return v
+
+def side_lemmas(formulas, cache):
+    '''sum-of-monomials copies of the real equations found in the side conditions (under their guards): implied by the originals wherever divisors are non-zero'''
+    out = []
+    def visit(f, guards):
+        if not z3.is_app(f): return
+        k = f.decl().kind()
+        if k == z3.Z3_OP_AND:
+            for c in f.children(): visit(c, guards)
+        elif k == z3.Z3_OP_IMPLIES:
+            visit(f.arg(1), guards + [f.arg(0)])
+        elif k == z3.Z3_OP_EQ and f.arg(0).sort() == z3.RealSort():
+            try:
+                d, fac = cross_difference(f.arg(0), f.arg(1), cache)
+            except Exception:
+                return
+            g = guards + [x != 0 for x in fac.values()]
+            out.append(z3.Implies(z3.And(*g), d == 0) if g else d == 0)
+    for f in formulas[:200]: visit(f, [])
+    return out
+
+def _poly_form(a, b, cache):
+    '''([cross-multiplied differences], {divisor id: divisor}) for two real/complex elements, or None if not applicable'''
+    a, b = lift(a), lift(b)
+    k = max(a.kind, b.kind, key='bifc'.index)
+    if k not in 'fc': return None
+    a, b = a.cast(k), b.cast(k)
+    pairs = [(a.re, b.re), (a.im, b.im)] if k == 'c' else [(a.t, b.t)]
+    diffs, fac = [], {}
+    for x, y in pairs:
+        d, f = cross_difference(x, y, cache)
+        diffs.append(d); fac.update(f)
+    return diffs, fac
 
 def holds(claim, *, pc=(), defined=(), side=(), timeout_ms=30000, extra=()):
     '''Decide validity of claim (SBool / z3 Bool / python bool) under pc&side&defined.
